@@ -407,6 +407,14 @@ def run(ck, tier):
         start, stop, step = (ast.Constant(0), args[0], ast.Constant(1)) if len(args) == 1 else ((args[0], args[1], ast.Constant(1)) if len(args) == 2 else args)
         src = U(el_s.value).replace(' ', '')
         pad = src in ("self.to_string()+b'\\x00'*(len(self.to_string())%2)", "self.to_string()+bytes(len(self.to_string())%2)")
+        if not pad and src == "self.to_string()+b'\\x00'":
+            # the same padding written as a statement:  if len(s) % 2: s = s + b'\x00'   (s += b'\x00')
+            for iff in ast.walk(bd.node):
+                if isinstance(iff, ast.If) and not iff.orelse and len(iff.body) == 1 and isinstance(iff.body[0], (ast.Assign, ast.AugAssign)):
+                    t_ = U(substitute(iff.test, {k_: v_ for k_, v_ in env_.items() if k_ != getattr(el_s.value, 'id', None)})).replace(' ', '')
+                    base_ = {k_: v_ for k_, v_ in env_.items()}
+                    if t_ in ('len(self.to_string())%2', 'len(self.to_string())%2!=0', 'len(self.to_string())%2==1', 'len(self.to_string())&1'):
+                        pad = True
         good = pad
         if not pad:
             why_b = 'the chunks are cut from `%s`, not from to_string() + one zero byte when its length is odd' % U(el_s.value)[:60]
